@@ -172,6 +172,7 @@ type run struct {
 	runRetAt    time.Time
 	waitRet     bool
 	openAtWait  []string // closable guns of started instances still open when Engine.Wait returned
+	busyAtWait  []string // providers / aggregators still running when Engine.Wait returned
 	cancelled   bool
 	cancelAt    time.Time
 	cancelStamp int
@@ -184,7 +185,7 @@ type run struct {
 func (r *run) newWorld() *World {
 	c := r.cfg
 	w := &World{T0: r.t0, Items: c.Ammo, Acquired: map[int]int{}, ProvFailAt: -1, GunFailAt: -1, BindFailAt: -1,
-		PanicAtShot: -1, SchedFailAt: -1, Tokens: map[int]*Token{}, Closable: c.Closable, WarmUp: c.WarmUp, WarmDur: ms(c.WarmMs), ProvBuf: c.ProvBuf, Cause: r.cause, CauseBare: c.CauseDeadline}
+		PanicAtShot: -1, SchedFailAt: -1, Tokens: map[int]*Token{}, Closable: c.Closable, WarmUp: c.WarmUp, WarmDur: ms(c.WarmMs), ProvBuf: c.ProvBuf, Waited: &r.waitRet, Cause: r.cause, CauseBare: c.CauseDeadline}
 	for _, m := range c.ShotMs {
 		d := ms(m)
 		if d > 0 && c.SkewUs > 0 {
@@ -281,7 +282,15 @@ func (r *run) scenario(x *vs.X) func(end, msg string) error {
 		r.runErr, r.runReturned, r.runRetAt = err, true, time.Now()
 		r.eng.Wait()
 		r.waitRet = true
-		r.openAtWait = nil
+		r.openAtWait, r.busyAtWait = nil, nil
+		for pi, w := range r.pools {
+			if w.ProvRunEnd == 1 {
+				r.busyAtWait = append(r.busyAtWait, fmt.Sprintf("pool %d provider", pi))
+			}
+			if w.AggRunEnd == 1 {
+				r.busyAtWait = append(r.busyAtWait, fmt.Sprintf("pool %d aggregator", pi))
+			}
+		}
 		for pi, w := range r.pools {
 			for _, g := range w.Guns {
 				if w.Closable && g.Bound && g.Shots >= 0 && g.Owner >= -1 && g.Closed == 0 {
@@ -579,6 +588,14 @@ func (r *run) checkC05(end, msg string) error {
 	// quiescence
 	if !r.waitRet {
 		return fmt.Errorf("WAIT[%s]: Engine.Wait did not return", f.Kind)
+	}
+	if len(r.busyAtWait) > 0 {
+		return fmt.Errorf("QUIESCENCE: Engine.Wait returned while still running: %v", r.busyAtWait)
+	}
+	for pi, w := range r.pools {
+		if len(w.Late) > 0 {
+			return fmt.Errorf("QUIESCENCE: after Engine.Wait had returned, in pool %d %s", pi, strings.Join(w.Late, ", "))
+		}
 	}
 	if len(r.openAtWait) > 0 {
 		return fmt.Errorf("CLOSE: Engine.Wait returned while closable guns of started instances were still open: %v", r.openAtWait)
